@@ -165,3 +165,92 @@ def plan_item(kind, strat=("inline", None, None, True), helper_kind="all", sym=F
 def cli_strategy_tuples():
     return [(a.merge_strategy, a.input_strategy, a.output_strategy, a.ignore_transients)
             for a in all_cli_strategies()]
+
+
+# ---------------------------------------------------------------------------
+# sweeps: merge EVERY TLC-enumerated triple of a region of the edit space with the real merger and forward the
+# ones a cheap screen marks to the full validation.  A sweep only selects what TLC looks at; it decides nothing.
+# ---------------------------------------------------------------------------
+SWEEP_STRATEGIES = (("inline", None, None, True), ("use-remote", None, None, True),
+                    ("inline", "use-local", "remove", False))
+
+
+def _screen_raises(base, local, remote, merged, decisions, exc):
+    if exc is not None:
+        t, w = common.exc_info(exc)
+        return "raised:%s:%s" % (t, w)
+    return None
+
+
+def _screen_invalid(base, local, remote, merged, decisions, exc):
+    if exc is not None:
+        return None
+    from .concretize import schema_errors
+    errs = schema_errors(merged)
+    if errs:
+        return "invalid:" + errs[0][:60]
+    if merged.get("nbformat_minor", 0) >= 5:
+        ids = [c.get("id") for c in merged.get("cells", []) if "id" in c]
+        if len(set(ids)) != len(ids):
+            bi = {c.get("id") for c in base.get("cells", [])}
+            return "dup:" + ("base" if any(ids.count(i) > 1 and i in bi for i in ids) else "new")
+    return None
+
+
+SCREENS = {"raises": _screen_raises, "invalid": _screen_invalid}
+
+
+def _sweep_worker(job):
+    t, screen = job
+    from . import concretize
+    from nbdime.merging.notebooks import merge_notebooks
+    mergedrv.quiet_logging()
+    try:
+        b, l, r = (concretize.concrete(t[k]) for k in ("base", "local", "remote"))
+    except Exception:
+        return None
+    for st in SWEEP_STRATEGIES:
+        merged = decisions = exc = None
+        try:
+            merged, decisions = merge_notebooks(b, l, r, strategy_args(*st))
+        except Exception as e:  # noqa
+            exc = e
+        why = SCREENS[screen](b, l, r, merged, decisions, exc)
+        if why:
+            return why
+    return None
+
+
+def sweep(chk, screen, cap, positions=("same", "adjacent")):
+    """[(name, base, local, remote, info)] - the triples of the swept region the screen marks, at most cap of them,
+    spread over the distinct reasons the screen gave."""
+    from . import concretize
+    from .corpus import enumerate_edits, _bucket
+    tr = [t for t in enumerate_edits(1, 1) if any(p in _bucket(t) for p in positions)]
+    ctx = multiprocessing.get_context("fork")
+    with ctx.Pool(common.NCPU) as pool:
+        why = pool.map(_sweep_worker, [(t, screen) for t in tr], chunksize=64)
+    groups = {}
+    for t, w in zip(tr, why):
+        if w:
+            groups.setdefault(w, []).append(t)
+    picked = []
+    keys = sorted(groups)
+    while len(picked) < cap and keys:
+        for k in list(keys):
+            if groups[k]:
+                picked.append((k, groups[k].pop()))
+                if len(picked) >= cap:
+                    break
+            else:
+                keys.remove(k)
+    chk.notes["sweep_" + screen] = {"triples_merged_under_%d_strategies" % len(SWEEP_STRATEGIES): len(tr),
+                                    "marked": sum(1 for w in why if w), "distinct_reasons": len(groups) + 0,
+                                    "forwarded": len(picked)}
+    out = []
+    for k, (w, t) in enumerate(picked):
+        b, l, r = (concretize.concrete(t[x]) for x in ("base", "local", "remote"))
+        if all(concretize.is_valid(x) for x in (b, l, r)):
+            out.append(("sweep%d" % k, b, l, r, {"source": "sweep", "script": t["hist"], "screen": w,
+                                                   "abstract": {"base": t["base"], "local": t["local"], "remote": t["remote"]}}))
+    return out
